@@ -2,6 +2,7 @@ package main
 
 import (
 	"fmt"
+	"go/constant"
 	"go/token"
 	"go/types"
 	"sort"
@@ -17,7 +18,7 @@ func init() {
 			"R2 silent skips are documented noise — an optional token consumed under a kind guard whose branch leaves no trace (no store, no differing phi at the merge point) must be one of the canonicalisations the property lists: INNER, OUTER, INTO, FROM after DELETE, an optional/trailing comma. " +
 			"R3 optional-position flags — a token.Pos field that is InvalidPos on some paths and a real position on others, where no other printed field is definitely different between the two cases, must be read by SQL(). " +
 			"C01/R2 (required tokens are printed) is shared. Does not decide: order of the printed pieces, survival of literal values through re-quoting (C15).",
-		Rules: []ruleFn{ruleC02R1, ruleC02R2, ruleC02R3, ruleC01R2, ruleC02R4, ruleC01R6, ruleC07R2, ruleC07R4, ruleC15R1, ruleC02R5, ruleC14R8, ruleC18R6, ruleC05R6},
+		Rules: []ruleFn{ruleC02R1, ruleC02R2, ruleC02R3, ruleC01R2, ruleC02R4, ruleC01R6, ruleC07R2, ruleC07R4, ruleC15R1, ruleC02R5, ruleC14R8, ruleC18R6, ruleC05R6, ruleC02R6},
 	})
 }
 
@@ -811,5 +812,94 @@ func ruleC02R5(w *World, r *Report) {
 	}
 	if n == 0 {
 		r.errorf("no extend-or-allocate production found (the set-operator chain of parseQueryExpr expected)")
+	}
+}
+
+// ruleC02R6: the keyword that was read is the keyword that is recorded. Enumeration-like fields (ast.Direction,
+// ast.SetOp, ast.JoinOp, …) hold the spelling SQL() prints; a constant chosen in the arm of a kind test has to spell
+// the kind that was tested there, or the user's ASC comes back as DESC — which round-trips perfectly.
+func ruleC02R6(w *World, r *Report) {
+	const rule = "C02/R6"
+	r.rule(rule, "a constant of a string-based enumeration type of package ast that the parser chooses in a block reached only under a test of the current token's kind (a case of a switch, `if Kind == K`) contains, as a word, one of the kinds tested there — or, when the test is a pseudo-keyword test, that pseudo-keyword; exceptions are the documented canonicalisations ('<>' is recorded as '!=')", 12)
+	tk := w.TKAI()
+	canon := map[string]string{"<>": "!="}
+	n := 0
+	for _, fn := range w.ModFns {
+		if fnPkgPath(fn) != modRoot || fn.Blocks == nil || fn.Signature.Recv() == nil || !w.isParserPtr(fn.Signature.Recv().Type()) {
+			continue
+		}
+		res := tk.Intra(fn)
+		seen := map[string]bool{}
+		check := func(c *ssa.Const, at *ssa.BasicBlock, where string) {
+			if c.Value == nil || c.Value.Kind() != constant.String {
+				return
+			}
+			nt := namedOf(c.Type())
+			if nt == nil || nt.Obj().Pkg() == nil || nt.Obj().Pkg().Path() != modRoot+"/ast" {
+				return
+			}
+			val := constant.StringVal(c.Value)
+			if val == "" {
+				return
+			}
+			// the kinds the current token can have when `at` is entered, not having consumed anything in this function
+			sts := res.in[at]
+			st := sts[0]
+			if st == nil {
+				return // only reachable after a consumption: the keyword is gone, judged by C01/R1
+			}
+			atoms, fin := st.cur.Finite()
+			if !fin || len(atoms) == 0 || len(atoms) > 4 {
+				return
+			}
+			key := fmt.Sprintf("%s %s %q", nt.Obj().Name(), where, val)
+			if seen[key] {
+				return
+			}
+			seen[key] = true
+			n++
+			construct := fmt.Sprintf("%s: ast.%s %q chosen under %v", funcName(fn), nt.Obj().Name(), val, atoms)
+			words := map[string]bool{}
+			for _, wd := range sqlWords(val) {
+				words[strings.ToUpper(wd)] = true
+			}
+			okk := false
+			for _, a := range atoms {
+				k := strings.ToUpper(strings.TrimPrefix(a, "<ident>~"))
+				if words[k] || canon[a] == val {
+					okk = true
+				}
+			}
+			if okk {
+				r.ok(rule, construct, w.pos(lastPos(at)), "the constant spells the kind that was tested")
+			} else {
+				r.bad(rule, construct, w.pos(lastPos(at)), fmt.Sprintf("the constant %q recorded here does not contain any of the kinds %v under which this block is reached: what the user wrote is replaced by another keyword", val, atoms))
+			}
+		}
+		for _, b := range fn.Blocks {
+			for _, in := range b.Instrs {
+				switch x := in.(type) {
+				case *ssa.Phi:
+					for i, e := range x.Edges {
+						if c, ok := e.(*ssa.Const); ok && i < len(b.Preds) {
+							check(c, b.Preds[i], "phi")
+						}
+					}
+				case *ssa.Store:
+					if c, ok := x.Val.(*ssa.Const); ok {
+						check(c, b, "store")
+					}
+				case *ssa.Return:
+					for _, rv := range x.Results {
+						if c, ok := rv.(*ssa.Const); ok {
+							check(c, b, "return")
+						}
+					}
+				}
+			}
+		}
+	}
+	if n < 12 {
+		r.errorf("only %d enumeration constants chosen under a kind test found", n)
 	}
 }
